@@ -14,6 +14,11 @@
 //                           equations; the harness prints what the real project_equations() produced
 //                           q / r: throw kind K of q_xx / of residuals(), sum_of_squares(), q_bb()
 //   run                     GeneralParameters(IS, out) as gama-local calls it
+//   sc <k> {<id> <xy> <ix> <iy>}*k <rows> <cols> <hex>*(rows*cols)
+//                           the REAL (private) LocalNetwork::singular_coords(A) on a fresh network whose PD holds
+//                           the k points (ids in ascending order) with the given xy status and index_x/index_y,
+//                           and the dense matrix A (row major); prints
+//                           `sing <0|1> <id:xy> … | <removed ids | ->`
 // stdout
 //   view <key> <unknowns T:id,…> nobs=<k> npts=<k> minn=<k>     at every reset of the solver (= every project_equations)
 //   removed <id>:<code> …
@@ -88,6 +93,7 @@ struct GamaVerifProbe {
   static int nobs(LocalNetwork& n) { return n.pocmer_; }
   static int npts(LocalNetwork& n) { return n.pocbod_; }
   static int minn(LocalNetwork& n) { return n.min_n_; }
+  static bool singular(LocalNetwork& n, const GNU_gama::local::Mat& A) { return n.singular_coords(A); }
   static std::string unknown_list(LocalNetwork& n) {
     std::string s;
     for (size_t i = 0; i < n.unknowns_.size(); i++) {
@@ -228,6 +234,38 @@ int main() {
           else if (name == "r") a.rthrow = kind_code(val);
         }
         table[t.at(1)] = a;
+        continue;
+      }
+      if (t[0] == "sc") {
+        size_t k = std::stoul(t.at(1)), pos = 2;
+        LocalNetwork net;
+        for (size_t i = 0; i < k; i++) {
+          std::string id = t.at(pos++);
+          char st = t.at(pos++).at(0);
+          int ix = std::stoi(t.at(pos++)), iy = std::stoi(t.at(pos++));
+          LocalPoint p;
+          p.set_xy(0, 0);
+          switch (st) {
+            case 'f': p.set_fixed_xy(); break;
+            case 'a': p.set_free_xy(); break;
+            case 'c': p.set_constrained_xy(); break;
+            default:  p.set_unused_xy();
+          }
+          p.index_x() = ix; p.index_y() = iy;
+          net.PD[PointID(id)] = p;
+        }
+        int rows = std::stoi(t.at(pos++)), cols = std::stoi(t.at(pos++));
+        GNU_gama::local::Mat A(rows, cols);
+        for (int r = 1; r <= rows; r++) for (int c = 1; c <= cols; c++) A(r, c) = vp::unhex(t.at(pos++));
+        bool res = GamaVerifProbe::singular(net, A);
+        std::cout << "sing " << (res ? 1 : 0);
+        for (PointData::const_iterator i = net.PD.begin(); i != net.PD.end(); ++i)
+          std::cout << " " << i->first.str() << ":" << st_xy(i->second);
+        std::cout << " |";
+        for (auto i = net.removed_points.begin(); i != net.removed_points.end(); ++i) std::cout << " " << i->str();
+        if (net.removed_points.empty()) std::cout << " -";
+        std::cout << "\n";
+        std::cout.flush();
         continue;
       }
       if (t[0] == "run") { if (!IS) { std::cout << "bad-op\n"; continue; } run(); std::cout.flush(); continue; }
